@@ -407,6 +407,10 @@ pub fn san_data_for(pos: &Pos, m: &RMove, variant: u32) -> SanData {
 /// model alone: piece letter (or figurine), minimal origin hint computed among legal moves
 /// only, capture mark, promotion suffix, castling symbols, '+' for check and '#' for mate.
 pub fn standard_san(pos: &Pos, legal: &[RMove], m: &RMove, utf8: bool) -> String {
+    if m.cell == 0 || m.cell > 12 || pos.sq[m.src as usize] != m.cell {
+        // not a move of this position (the caller's reference has lost track of the game)
+        return "?".to_string();
+    }
     let piece_ch = |p: u8| -> char {
         if utf8 {
             ['\u{2659}', '\u{2654}', '\u{2658}', '\u{2657}', '\u{2656}', '\u{2655}'][p as usize]
